@@ -394,3 +394,40 @@ Proof.
   rewrite sd_setup_calls_tuple. cbn [custom_leaves]. induction IH as [|x r Hx _ IHr]; [reflexivity|].
   cbn [map concat]. now rewrite Hx, IHr.
 Qed.
+
+(* ---------------- World::exec ---------------- *)
+
+Lemma insert_default_inv dflt ty w : inv w -> guards w = [] -> inv (insert_default dflt ty w).
+Proof.
+  intros I G. unfold insert_default. destruct (lookup (ty, 0) (cells w)) eqn:L; [exact I|].
+  pose proof (step_inv w (OEntry ty (dflt ty)) I) as S. cbn [step] in S. unfold no_guards in S. rewrite G in S. cbn [negb] in S.
+  rewrite L in S. exact S.
+Qed.
+
+Lemma sd_setup_inv dflt d : forall w, inv w -> guards w = [] -> inv (sd_setup dflt d w).
+Proof.
+  induction d as [ty h|ty h|ty|ty| | |l IH] using sd_ind'; intros w I G; try exact I.
+  - cbn [sd_setup]. destruct (provides h); [now apply insert_default_inv|exact I].
+  - cbn [sd_setup]. destruct (provides h); [now apply insert_default_inv|exact I].
+  - rewrite sd_setup_tuple. revert w I G. induction IH as [|x r Hx _ IHr]; intros w I G; cbn [fold_left]; [exact I|].
+    apply IHr; [now apply Hx|]. destruct (sd_setup_keeps_guards dflt x w) as [-> _]. exact G.
+Qed.
+
+(* C06/C09/C14: exec(f) = setup, then fetch; when the closure returns — or unwinds — the value is dropped and
+   the world is exactly the world after setup, with nothing borrowed; if the fetch itself panics the same holds *)
+Theorem sd_exec_returns_setup_world dflt d w w' gs :
+  inv w -> guards w = [] -> sd_exec dflt d w = (w', inl gs) ->
+  cells (drop_guards gs w') = cells (sd_setup dflt d w) /\ guards (drop_guards gs w') = [].
+Proof.
+  intros I G H. unfold sd_exec in H.
+  destruct (sd_drop_releases_everything d (sd_setup dflt d w) w' gs (sd_setup_inv dflt d w I G) H) as [A B].
+  split; auto. rewrite B. destruct (sd_setup_keeps_guards dflt d w) as [-> _]. exact G.
+Qed.
+Theorem sd_exec_fetch_panic_clean dflt d w w' p :
+  inv w -> guards w = [] -> sd_exec dflt d w = (w', inr p) ->
+  cells w' = cells (sd_setup dflt d w) /\ guards w' = [].
+Proof.
+  intros I G H. unfold sd_exec in H.
+  destruct (sd_fetch_fail_clean d (sd_setup dflt d w) w' p (sd_setup_inv dflt d w I G) H) as [A B].
+  split; auto. rewrite B. destruct (sd_setup_keeps_guards dflt d w) as [-> _]. exact G.
+Qed.
